@@ -509,6 +509,12 @@ class Escape:
             k = idx.value if isinstance(idx, ast.Constant) else -idx.operand.value
             src = _splitter_source(fi.node, base)
             if src is None:
+                # constant index into a possibly empty str/bytes value derived from server data
+                if self.taint is not None and isinstance(base, ast.Name) and self.taint.tainted(fi, base) \
+                        and _stringish_local(fi.node, base.id):
+                    if guarded_len(fi.node, base.id, n, k) or guarded_truthy(fi.node, base.id, n):
+                        return None
+                    return self._item(fi, n, IDIOM_INDEX, '%s %s (constant index into server-derived text)' % (fi.loc(n), norm_text(n)), 'index')
                 return None
             meth, call = src
             if meth in ('partition', 'rpartition') and -3 <= k <= 2:
@@ -557,6 +563,45 @@ def _splitter_source(fn, base, _depth=0):
         if srcs:
             return srcs[0]
     return None
+
+
+STR_PRODUCERS = {'strip', 'lstrip', 'rstrip', 'lower', 'upper', 'decode', 'encode', 'replace', 'group', 'format', 'join',
+                 'title', 'casefold', 'translate', 'readline', 'read'}
+
+
+def _stringish_local(fn, name):
+    """Every definition of the local binds a str/bytes value: an element of a partition/split result, the result of a
+    string method, a slice, or a loop variable over split()/splitlines() - never a parameter or a tuple."""
+    defs = U.local_defs(fn).get(name, [])
+    if not defs:
+        return False
+    for v, kind, st in defs:
+        if kind == 'param' or v is None:
+            return False
+        if kind.startswith('tuple:'):
+            if not (isinstance(v, ast.Call) and isinstance(v.func, ast.Attribute) and v.func.attr in ('partition', 'rpartition', 'split', 'rsplit')):
+                return False
+        elif kind == 'for':
+            if not (isinstance(v, ast.Call) and isinstance(v.func, ast.Attribute) and v.func.attr in ('split', 'rsplit', 'splitlines')
+                    or isinstance(v, ast.Name)):
+                return False
+            if isinstance(v, ast.Name):
+                inner = U.local_defs(fn).get(v.id, [])
+                if not inner or not all(iv is not None and isinstance(iv, ast.Call) and isinstance(iv.func, ast.Attribute)
+                                        and iv.func.attr in ('split', 'rsplit', 'splitlines') for iv, ik, _ in inner):
+                    return False
+        elif kind == 'assign':
+            if isinstance(v, ast.Subscript) and isinstance(v.slice, ast.Slice):
+                continue
+            if isinstance(v, ast.Call) and isinstance(v.func, ast.Attribute) and v.func.attr in STR_PRODUCERS:
+                continue
+            if isinstance(v, (ast.YieldFrom, ast.Await)) and isinstance(v.value, ast.Call) and isinstance(v.value.func, ast.Attribute) \
+                    and v.value.func.attr in STR_PRODUCERS:
+                continue
+            return False
+        else:
+            return False
+    return True
 
 
 def _terminates(stmts):
